@@ -18,7 +18,7 @@ import random
 from fractions import Fraction as F
 from vcheck import fmt_q, fmt_vec, fmt_ivec, fmt_crs, parse_out_crs, parse_out_vec
 import gen
-from props.common import diff_run, oracle_run
+from props.common import diff_run, oracle_run, account
 from props import blockvals as bv
 
 DRIVERS = ["matops", "matops_block"]
@@ -569,6 +569,37 @@ def block_run(ctx, ls, nt, env, by_id):
     return fails
 
 
+def tiny_diagonal_stage(ctx):
+    """diagonal(A, invert) in binary64 on power-of-two data with TINY non-zero diagonal entries (2^-50 .. 2^-70, below the machine
+    epsilon): the definition inverts every non-zero entry (the exact build cannot see a threshold on |a_ii| because the epsilon of
+    the rational type is 0).  Implementation (double) vs the model at Q on the same line: both are exact."""
+    r = random.Random(ctx["seed"] * 1000 + 808)
+    lines = []; mlines = []
+    for k in range(40 if ctx["tier"] == "quick" else 400):
+        n = r.choice([1, 2, 3, 5, 8])
+        rows = []
+        for i in range(n):
+            rw = {}
+            for j in range(n):
+                if j != i and r.random() < 0.4: rw[j] = F(r.choice([-1, 1])) * F(2) ** r.randint(-6, 6)
+            e = r.choice([-55, -60, -70, -52, -53, -30, 0, 3]) if r.random() < 0.8 else None
+            rw[i] = F(0) if e is None else F(r.choice([-1, 1])) * F(2) ** e
+            rows.append(list(rw.items()) if r.random() < 0.5 else sorted(rw.items()))
+        payload = "%s %d" % (fmt_crs(n, n, rows), 1 if k % 4 else 0)
+        lines.append("td%d diagonal_d %s" % (k, payload)); mlines.append("td%d diagonal %s" % (k, payload))
+    impl = ctx["run_driver"](ctx["cpp"]["matops"], lines, env_extra={"OMP_NUM_THREADS": "2"})
+    model = ctx["run_driver"](ctx["model"], mlines)
+    account(ctx, lines, impl)
+    fails = []
+    for l in lines:
+        cid = l.split(" ", 1)[0]
+        if impl.get(cid) != model.get(cid):
+            ctx["stats"]["mismatches"] += 1
+            fails.append(dict(kind="counterexample", case=l, impl=impl.get(cid), model=model.get(cid), op="diagonal_d", size=len(l),
+                              theorem="C08 diagonal(A, invert) in binary64 on power-of-two data = the model at Q (C08_diagonal_*): every non-zero entry is inverted"))
+    return fails
+
+
 def run(ctx, cases_override=None):
     lines = cases_override or cases(ctx["tier"], ctx["seed"])
     fails = []
@@ -622,6 +653,7 @@ def run(ctx, cases_override=None):
             x["impl_eq_model"] = (impl.get(cid) is not None and impl.get(cid) == model.get(cid))
             x["theorem"] = "C08 %s: dense definition violated by the implementation's output (OMP_NUM_THREADS=%d)" % (x["op"], nt)
         fails += of
+    if not cases_override: fails += tiny_diagonal_stage(ctx)
     if BSTAT:
         ctx["log"].append(("C08 block generators: stored blocks / scalar / diagonal / symmetric; sampled pairs / non-commuting",
                            "%(blocks)d / %(scalar)d / %(diagonal)d / %(symmetric)d; %(pairs)d / %(noncommuting)d" % BSTAT))
